@@ -117,6 +117,51 @@ DETECT.update({
     "C04-b": (["C04"], "DETECTED", "a rejected (staged) block followed by any successful confirmation"),
 })
 
+# ---- third round (two changes per property, ids -f -g; prompt TEMPLATE3: helpers outside the anchored files, start-up /
+# recovery code, second entries to a mechanism, multi-step sequences, non-determinism) ----
+DETECT.update({
+    "C01-f": (["C01"], "DETECTED", "pool graph keeps one child edge per pending parent: dependants survive the rollback of their parent"),
+    "C01-g": (["C01", "C02"], "MISSED", "needed peer blocks whose first transaction lacks the read-set entry of a key it deletes (txmut dropread): only a block can deliver such a transaction, and only its later undo shows the damage"),
+    "C02-f": (["C02"], "DETECTED", "pending transaction registered in the graph under its first input only (same family as C01-f)"),
+    "C02-g": (["C02"], "DETECTED", "undoPayFee evicts the cache entry under the fee placeholder (same idea as C01-b)"),
+    "C03-f": (["C03"], "DETECTED", "UtxoCache.remove looks in the Available view: a selected-then-spent output stays selectable"),
+    "C03-g": (["C03"], "DETECTED", "start-up skips pending rows the ledger holds in a trunk block while their pending effects stay applied"),
+    "C04-f": (["C04"], "DETECTED", "internal block lookups served from the full-block cache (stale InTrunk / next links)"),
+    "C04-g": (["C04"], "DETECTED", "height index only written for a block without next link"),
+    "C05-f": (["C05"], "DETECTED", "start-up drops pool rows of transactions confirmed on the trunk (same idea as C03-g)"),
+    "C05-g": (["C05", "C04"], "MISSED", "needed truncations in the C05 mix (ledger.Truncate re-uses ConfirmBlock's batch without Reset: the last confirmed block's writes are replayed)"),
+    "C06-f": (["C06"], "DETECTED", "re-pointed tx records written outside the ConfirmBlock batch"),
+    "C06-g": (["C06"], "DETECTED", "miner path deletes packed pool records outside the block batch"),
+    "C07-f": ([], "MISSED", "NOT DETECTED on the final tree. Walk skips ImmediateVerifyTx for block transactions whose id sits in the rolled-back pool. First run missed; I added peer blocks carrying a pending transaction with an altered body under its id (poolmut), which C02 / C03 then caught - and which showed that HEAD itself filed the forged body under the known id (fix 52dadae: VerifyBlock recomputes every txid). Since that fix the altered copy never reaches Walk through any path that verifies the block first (all callers do); a byte-identical pending transaction is still re-checked by xmodel.DoTx (read versions) and the utxo layer, so the remaining gap (signatures and contract re-execution of an unchanged transaction on another branch) shows no difference my generators reach (poolforce blocks with a stale pending transaction are refused with and without the change). The author's demonstration calls ConfirmBlock + Walk without VerifyBlock and still fails"),
+    "C07-g": (["C07", "C09"], "MISSED", "needed the two-site forgery 'declare a foreign output as contract-spent input and collect it' with the foreign output placed before / behind the contract's own"),
+    "C08-f": (["C08"], "MISSED", "needed the sync-path sub-check: mutated blocks delivered through the real ProcBlock / catch-up code at every position of the fetched batch (the first block of the batch is no longer verified)"),
+    "C08-g": (["C08"], "MISSED", "same sub-check: a block id that passed verification once is trusted when a DIFFERENT body arrives under it"),
+    "C09-f": (["C07"], "MISSED", "needed contract transfers paid from TWO outputs of the contract (the generators only let a contract transfer when it owned exactly one output) and the forgery 'second declared contract input replaced by a foreign output, change grown by the difference' (contract-claim-second in C07); C09's own histories still transfer from one output only"),
+    "C09-g": ([], "MISSED", "NOT DETECTED on the final tree: same change as C07-f (see there)"),
+    "C10-f": (["C09"], "MISSED by C10", "the version cache of the real XModel is below C10's backing reader (C10 drives the sandbox over an imitation of XModel); C09 catches it after I made every C09 history end with a replay on a fresh node (cold caches)"),
+    "C10-g": ([], "MISSED", "NOT DETECTED, not built: the contract descriptor is read straight from the chain instead of through the execution's own reader; needs a non-kernel contract runtime (deploy / upgrade of native or wasm code inside one transaction), which this sandbox cannot build or run - the harness contracts are kernel contracts without descriptor"),
+    "C11-f": (["C11"], "DETECTED", "tip snapshot served from the live table (sees pending ACL writes)"),
+    "C11-g": (["C11"], "MISSED", "needed the re-admission oracle: after a walk / sync every transaction whose initiator account's ACL no longer authorises it on the new branch must not be back in the pool"),
+    "C12-f": (["C12"], "MISSED", "needed SelectUtxosBySize as a request kind of the scheduler (hook 77d68f5 yields per scanned output): two selectors through different entries share an output"),
+    "C12-g": (["C12"], "DETECTED", "UtxoCache.remove returns when the item is not Available (same idea as C02-b)"),
+    "C13-f": (["C13"], "DETECTED", "rolled-back pending transactions keep their persisted row on the Walk path"),
+    "C13-g": (["C13"], "DETECTED", "undoTxInternal evicts the cache under an un-prefixed key"),
+    "C14-f": (["C14"], "MISSED", "needed the path xpoa-reorg: an xpoa instance that judged a block on a branch with a validator change and then follows a branch without it"),
+    "C14-g": (["C14"], "MISSED", "needed the path smr-pruned: a proposal message judged by an smr whose commit rule has moved the root of the pending tree onto the certified proposal"),
+    "C15-f": (["C15"], "MISSED", "needed confirmed blocks to enter through the real Smr.UpdateQcStatus (the wrapper called the tree directly)"),
+    "C15-g": (["C15"], "MISSED", "needed the restart tree of the real InitQCTree over a box of (tip height, start height) stub ledgers"),
+    "C16-f": (["C16"], "MISSED", "needed an election with equal ballots judged by two nodes twice: at most one producer per instant (who wins the tie is not asserted)"),
+    "C16-g": (["C16"], "MISSED", "needed the producer's own path: CompeteMaster, then ProcessBeforeMiner for every timestamp of the surrounding terms"),
+    "C17-f": (["C17"], "MISSED", "needed restarts after truncations in the C17 mix (the start-up 'repair' lowers a persisted height that is ahead of the truncated ledger)"),
+    "C17-g": (["C17"], "MISSED", "needed the truncate operation to go through the real Miner.truncateForMiner (hook d2898a6)"),
+    "C18-f": (["C18"], "DETECTED", "transaction above the fork point re-pointed instead of refused"),
+    "C18-g": (["C18"], "DETECTED", "queryTx asks the confirmed table first (a pending re-write looks confirmed)"),
+    "C19-f": (["C01"], "MISSED by C19", "verifyOutputs skipped for block transactions: nothing in C19's own model changes (governance calls keep their read sets); C01 catches it since peer blocks carry transactions with a dropped read-set entry (added for C01-g)"),
+    "C19-g": (["C01", "C02", "C03"], "MISSED by C19", "pool graph loses read dependencies behind the first non-pending read: a pool-level defect, caught by the node machines (dependants survive the rollback of the transaction whose write they read); C19's single-node sequences never roll a pending governance call back"),
+    "C20-f": (["C20"], "MISSED", "needed messages sent with the DEFAULT log id, built back to back: each is a message of its own and must be delivered (detection depends on two messages being built within one microsecond: rapid reports the failure, the replay file may not reproduce it)"),
+    "C20-g": (["C20"], "MISSED", "needed the empty chain name in the message universe and repeats that are separately decoded copies"),
+})
+
 
 def main():
     for sid in sorted(os.listdir(os.path.join(ROOT, "seeded"))):
